@@ -33,7 +33,8 @@ Clause(r) ==
     [] \E k \in DOMAIN r.rd : r.rd[k].zero /\
           ~(r.rd[k].ok1 /\ r.rd[k].ok2 /\ r.rd[k].d1 = r.digest /\ r.rd[k].d2 = r.digest
             /\ r.rd[k].c1 = n /\ r.rd[k].c2 = 2 * n) -> "stream-read-zero-length-delivery"
-    [] ~(r.hex.ok /\ r.hex.lower /\ r.hex.nib = Nibbles(want)) -> "hex-encode"
+    \* (the letter case of the hex digits is not prescribed: both cases must DEcode, next clause)
+    [] ~(r.hex.ok /\ r.hex.nib = Nibbles(want)) -> "hex-encode"
     [] r.hex.dlow # r.digest \/ r.hex.dup # r.digest -> "hex-decode"
     [] \E k \in DOMAIN r.sql : LET e == r.sql[k] IN
           \/ e.str # "error"
